@@ -1,4 +1,5 @@
 import MpfVerif.Lemmas.Credits
+import MpfVerif.Gen.Credits
 /-!
 # C20 — credits: the balance follows the pricing table and stays within bounds
 
@@ -180,6 +181,27 @@ theorem tier_bonus_is_greedy (c : Cfg) (n t : Nat) (b : Int) (h : t + n ≤ wrap
       rw [hm, ih (t + 1) _ (by omega), ht]
       have e : t + 1 + (m + 1) = t + (m + 1 + 1) := by omega
       rw [e]; omega
+
+/-- **tie to the source (1)**: the balance the model stores in `_add_credit_units` is the value computed by the cap-and-store
+code *as regenerated from credits.py on this run* (`Gen/Credits.lean`, everything after the pricing-tier loop), with
+`previous_credit_units` = the balance before and `total_credit_units` = balance + added units + tier bonus. -/
+theorem gen_add_units (c : Cfg) (s : St) (n : Nat) (t : Bool) :
+    (addUnits c s n t).units =
+      Gen.Credits.addTail s.units s.units (n + s.units + addBonus c s n t) c.maxCredits (upg c) := by
+  rw [addUnits_units]
+  unfold newUnits Gen.Credits.addTail maxUnits
+  simp only [Int.natCast_mul]
+
+/-- **tie to the source (2)**: `_clear_fractional_credits` as regenerated from credits.py -/
+theorem gen_clear_fractional (c : Cfg) (s : St) :
+    (clearFrac c s).units = Gen.Credits.clearFractional s.units (upg c) := rfl
+
+/-- **tie to the source (3)**: the credit-play branch of `_player_added` as regenerated from credits.py -/
+theorem gen_player_added (c : Cfg) (s : St) :
+    (playerAdded c s).units = Gen.Credits.playerAdded s.units (upg c) := by
+  show deductUnits c s.units = _
+  unfold deductUnits Gen.Credits.playerAdded
+  simp only []
 
 /-- the hypotheses are satisfiable: the test-suite configuration (quarter and dollar coins, 50 ct per credit,
 5 credits for $2, at most 12 credits) is well-formed, two dollars buy 5 credits, and the 12-credit cap holds -/
